@@ -7,6 +7,7 @@ import Proofs.C14Csv
 import FqModel.C14Hash
 import FqModel.C14Json
 import Proofs.C14Json
+import Proofs.C14Large
 /-!
   C14 — property theorems about the models of fq's conversion functions (FqModel/Codec.lean).
   Every theorem quantifies over ALL inputs (no length bound).  Helper lemmas: Proofs/C14*.lean.
@@ -452,5 +453,43 @@ example : "7f".toList ≠ [] ∧ ∀ c ∈ "7f".toList, validDigit 16 c = true :
 example : fromRadixLegacy 2 "9".toList = some 9 ∧ fromRadixLegacy 16 [] = some 0 := by decide
 /-- to_radix: base < 2 and base > 64 are errors -/
 example : toRadix 1 5 = none ∧ toRadix 0 5 = none ∧ toRadix 65 5 = none := by decide
+
+/-! ## chunk independence (large and composite inputs: ops `lrt`, `lhash`)
+
+  fq feeds its encoders through `io.Copy(encoder, bitio.NewIOReader(br))`: the encoder receives the input
+  in pieces (32 KiB copy buffer; reads of an array binary stop at the boundaries of its members).  The
+  property makes the result a function of the bit string alone, i.e. independent of that chunking. -/
+open FqModel.C14Large in
+/-- hex: encoding chunk by chunk, for EVERY chunk size, is the encoding of the whole -/
+theorem hex_chunk_independent (k : Nat) (hk : 0 < k) (bs : Bytes) : encChunked hexEnc k bs = hexEnc bs :=
+  chunks_flatMap hexEnc k hk rfl (fun a b _ => hexEnc_append a b) _ _ (Nat.lt_succ_self _)
+
+open FqModel.C14Large in
+/-- base64 (all four variants): encoding chunk by chunk is the encoding of the whole for every chunk size
+    that is a multiple of 3 (what a streaming encoder must buffer up to) -/
+theorem b64_chunk_independent (e : B64) (k : Nat) (hk : 0 < k) (h3 : k % 3 = 0) (bs : Bytes) :
+    encChunked e.enc k bs = e.enc bs :=
+  chunks_flatMap e.enc k hk (b64_enc_nil e)
+    (fun a b h => b64_enc_append_aux e (k / 3) a b (by omega)) _ _ (Nat.lt_succ_self _)
+
+/-- base64 of a concatenation, first part a multiple of 3 bytes long -/
+theorem b64_enc_append (e : B64) (a b : Bytes) (h : a.length % 3 = 0) : e.enc (a ++ b) = e.enc a ++ e.enc b :=
+  b64_enc_append_aux e (a.length / 3) a b (by omega)
+
+open FqModel.C14Large in
+/-- … and it is false for other chunk sizes: an encoder applied per chunk (a copy loop that calls
+    `EncodeToString` per read — 64 KiB reads, or reads that stop at the member boundaries of an array binary)
+    puts padding / partial groups in the middle of the text -/
+theorem b64_chunk_not_multiple_of_3_witness :
+    encChunked b64Std.enc 1 [97, 98] = bytesOfAscii "YQ==Yg==" ∧ b64Std.enc [97, 98] = bytesOfAscii "YWI=" ∧
+    encChunked b64RawUrl.enc 4 [1, 2, 3, 4, 5] ≠ b64RawUrl.enc [1, 2, 3, 4, 5] ∧
+    65536 % 3 ≠ 0 ∧ 32768 % 3 ≠ 0 := by decide
+
+/-- the string encoders are homomorphic over concatenation (so chunking at character boundaries is invisible) -/
+theorem utf8_append (a b : List Char) : toUtf8 (a ++ b) = toUtf8 a ++ toUtf8 b := by simp [toUtf8]
+theorem utf16_body_append (le : Bool) (a b : List Char) : utf16Body le (a ++ b) = utf16Body le a ++ utf16Body le b := by
+  simp [utf16Body]
+
+example : (0 : Nat) < 3072 ∧ 3072 % 3 = 0 := by decide
 
 end Props.C14
